@@ -47,6 +47,9 @@ type Expr struct {
 	Pats [][]*Expr
 	Pos  string
 	Text string
+	// Props: property ids a clause was tagged with ("ensures [C18] ..."): its proof is demanded only by the checks of
+	// those properties (callers still assume it); empty = every check that verifies the function demands it
+	Props []string
 }
 
 func (e *Expr) String() string {
@@ -738,10 +741,20 @@ func (ss *SpecSet) LoadSpecFile(path, pkgPath string, trustedFile bool) error {
 					cur.Requires = append(cur.Requires, e)
 				}
 			case "ensures":
+				var props []string
+				if r := strings.TrimSpace(rest); strings.HasPrefix(r, "[") {
+					if k := strings.Index(r, "]"); k > 0 {
+						for _, p := range strings.Split(r[1:k], ",") {
+							props = append(props, strings.TrimSpace(p))
+						}
+						rest = r[k+1:]
+					}
+				}
 				e, err := parse(rest)
 				if err != nil {
 					return err
 				}
+				e.Props = props
 				if curCb != nil {
 					curCb.Ensures = append(curCb.Ensures, e)
 				} else {
